@@ -14,6 +14,14 @@ CHECKS = {
   "exhaustive enumeration of the matrix (schema node kind in context) x (serde presentation): every Serializer method, every integer width at its boundaries, strs/bytes/sequences around every fixed size, wrong length hints, field sets exact/missing/unknown/duplicated/permuted, named and type-directed union selection; every Ok result is decoded by the reference decoder and judged by a denotation relation that does not depend on the branch the crate chose",
   "trusted: vmodel decoder; the denotation relation den() (DESIGN.md §4 C02); abstains on documented-lossy conversions (f64->float, decimal rescale, f64->decimal); bounds: one (quick) / two (thorough) levels of context around each node kind",
   "small-scope exhaustive enumeration of a (schema x presentation) matrix against a reference decoder", "DESIGN.md §4 C02"),
+ "C04": ("model_checking",
+  "explicit-state search over the decoder's input-consumption tree: a byte-string prefix is expanded over a 10-symbol byte alphabet only if decoding it ended because the input ran out (so the depth budget of 8 / 12 bytes goes to the prefixes that keep the decoder hungry: huge counts, huge lengths, nested block headers), for 17 hostile schemas (array<null>, map<null>, recursive records, big-decimal, ...) plus the shared alphabet; 39-45 decodes per node: slice, 1-byte-refill reader, whole-buffer reader x targets (observation, IgnoredAny, non-allocating fold, typed Rust types) x limits tightened one at a time (allowed_depth 0/1/2, max_seq_size 0/1/3, max_alloc_size 0/1/8); oracle: no panic/abort/hang (worker subprocesses under an address-space limit), the reference decoder's nesting / longest collection / largest field above a limit => Err, slice path with a non-allocating target and Ok => 0 heap allocations (counting allocator), peak heap <= 2048 + max_alloc_size + |input|, fill_buf/read calls <= 4|input| + 2 values + 16; plus ~440 literal adversarial seeds under default limits (i64::MIN counts, 2^62 lengths, 10^9 zero-byte elements, 10^5-deep recursion)",
+  "trusted: vmodel decoder (shape of valid datums); the counting allocator; bounds: per-schema node caps (dense trees stop at depth 3-6, reported per schema in the evidence: a capped run is not called exhaustive), limits varied one at a time",
+  "explicit-state search over the input-consumption tree of the real decoder, resource oracles per state", "DESIGN.md §4 C04"),
+ "C11": ("model_checking",
+  "for every input (valid encodings of the shared alphabet in 3 block layouts, every truncation and single-byte replacement of them, hostile consumption-tree nodes of 49 schemas, 270 single-object inputs, 96 container files of all six codecs) the slice decode is the reference (value, bytes consumed, a sentinel datum decoded from what follows) and every environment must agree: ALL compositions of the byte string into fill_buf chunks for inputs <= 12 bytes (2^(n-1)), otherwise every uniform chunk size 1..64, one chunk, and deviation-bounded irregular cuts (one extra boundary at every offset on 6 (quick) / 65 (thorough) bases; two extra boundaries for inputs <= 24 / 160 bytes), plus std BufReader capacities 1/2/3/8192; vacuity guards: the byte-wise varint fallback and the scratch-buffer copy must have been taken (recognised from the call pattern)",
+  "trusted: the slice path as reference (its own correctness is C03's); max_alloc_size >= |input| assumed; bounds as stated; node caps on some hostile trees are reported (exhaustive: false)",
+  "exhaustive enumeration of stream chunkings (all compositions for short inputs, deviation-bounded cuts for long ones) against the slice path", "DESIGN.md §4 C11"),
  "C05": ("model_checking",
   "explicit enumeration of container-writer histories (all operation sequences of length <= 3 quick / <= 5 thorough over serialize, push_serialized, finish_block) x 6 codecs x 5 schemas x approx_block_size incl. 0/1/u32::MAX, plus size families that place uncompressed block lengths on 8/16/32/64/128 KiB and compressed block lengths (located by bisection per codec and level) on the 32/64/128 KiB encoder buffer boundaries; every file is parsed by an independent container parser and read back by the real Reader through slice, BufReader(1/7/8192) and every uniform refill size 1..len (small files); each case runs in a worker subprocess",
   "trusted: vmodel container parser and codec framing (libflate, streaming bzip2/xz, snap + own CRC-32, zstd); bounds: histories <= 3/5 ops, levels {default,1,9,200(clipped),zstd 22}, refill sweeps complete only for files <= 300/400 bytes",
